@@ -58,12 +58,12 @@ type qnCfg struct {
 }
 
 type qnPlan struct {
-	focus   string
-	cli     qnCfg
-	srv     qnCfg
-	retry   bool
-	faults  vs.PacketFaults
-	streams []qnStreamPlan
+	focus    string
+	cli      qnCfg
+	srv      qnCfg
+	retry    bool
+	faults   vs.PacketFaults
+	streams  []qnStreamPlan
 	randSeed uint64
 	// handshake-fault / attacker configurations (C27, C31)
 	ghosts     []qnGhost // clients whose address never answers (a spoofed victim)
@@ -138,13 +138,33 @@ func qnDrawWriter(c vs.Chooser, focus string, maxBytes int) []qnOp {
 
 func qnDrawReader(c vs.Chooser, focus string) []qnOp {
 	var ops []qnOp
+	if vs.Pct(c, 6) {
+		// "catch up, fall behind, zero-length read" shape: consume everything that
+		// has arrived, let the writer fill the window again, then a zero-length
+		// Read on the slow path (it moves the whole window into the fast-path
+		// buffer) before draining.
+		k := vs.Range(c, 1, 3)
+		for i := 0; i < k; i++ {
+			ops = append(ops, qnOp{kind: "read", n: 1 << 16},
+				qnOp{kind: "sleep", dur: time.Duration(vs.Pick(c, 10, 100, 1000)) * time.Millisecond},
+				qnOp{kind: "read0"})
+		}
+		ops = append(ops, qnOp{kind: "drain"})
+		return ops
+	}
 	n := vs.Range(c, 0, 6)
 	for i := 0; i < n; i++ {
 		switch k := c.Intn(8); {
 		case k <= 3:
 			ops = append(ops, qnOp{kind: "read", n: 1 + vs.SizeBiased(c, 70000, 1, 1200, 4096)})
 		case k == 4:
-			ops = append(ops, qnOp{kind: "readbyte"})
+			if vs.Pct(c, 35) {
+				// a zero-length Read (legal for an io.Reader; internal/http3 issues
+				// one for an empty DATA frame)
+				ops = append(ops, qnOp{kind: "read0"})
+			} else {
+				ops = append(ops, qnOp{kind: "readbyte"})
+			}
 		case k == 5 || k == 6:
 			ops = append(ops, qnOp{kind: "sleep", dur: time.Duration(vs.Pick(c, 1, 10, 100, 1000, 3000)) * time.Millisecond})
 		case k == 7 && (focus == "C32" || vs.Pct(c, 10)):
@@ -297,7 +317,7 @@ type qnHandler struct {
 }
 
 func (h *qnHandler) Enabled(_ context.Context, l slog.Level) bool { return l >= QLogLevelFrame }
-func (h *qnHandler) WithGroup(string) slog.Handler               { return h }
+func (h *qnHandler) WithGroup(string) slog.Handler                { return h }
 func (h *qnHandler) WithAttrs(attrs []slog.Attr) slog.Handler {
 	var gid, vantage string
 	for _, a := range attrs {
@@ -398,8 +418,8 @@ type qnConn struct {
 	gid      string
 	peerAddr netip.AddrPort
 	peer     *qnConn
-	cfg     qnCfg // own config
-	peerCfg qnCfg
+	cfg      qnCfg // own config
+	peerCfg  qnCfg
 
 	sentPN [3]map[int64]bool
 	recvPN [3]map[int64]bool
@@ -414,7 +434,7 @@ type qnConn struct {
 	maxDataSent  int64
 	msdSent      map[int64]int64
 	maxStrSent   [2]int64
-	openedMax    [2]int64 // highest own stream number used +1
+	openedMax    [2]int64              // highest own stream number used +1
 	recvStream   map[int64]*rangeModel // stream id -> byte ranges received in STREAM frames
 	recvFin      map[int64]int64
 	closeSent    bool
@@ -770,26 +790,26 @@ func (m *qnMon) processNet(ev qnEvent) *vs.Violation {
 			if m.sentTo[ev.to] > 3*m.recvFrom[ev.to] {
 				hist := m.history(60)
 				if false {
-				var hist []string
-				m.log.mu.Lock()
-				for _, e := range m.log.events {
-					switch e.kind {
-					case "send", "deliver":
-						hist = append(hist, fmt.Sprintf("%s %v>%v %dB@%v", e.kind, e.from, e.to, e.length, e.at))
-					case "qlog":
-						dir := "recv"
-						if e.sent {
-							dir = "sent"
+					var hist []string
+					m.log.mu.Lock()
+					for _, e := range m.log.events {
+						switch e.kind {
+						case "send", "deliver":
+							hist = append(hist, fmt.Sprintf("%s %v>%v %dB@%v", e.kind, e.from, e.to, e.length, e.at))
+						case "qlog":
+							dir := "recv"
+							if e.sent {
+								dir = "sent"
+							}
+							hist = append(hist, fmt.Sprintf("%s:%s %s#%d", e.conn.vantage, dir, e.ptype, e.pnum))
+						case "newconn":
+							hist = append(hist, fmt.Sprintf("newconn server=%v %v retry=%v", e.server, e.from, e.retry))
 						}
-						hist = append(hist, fmt.Sprintf("%s:%s %s#%d", e.conn.vantage, dir, e.ptype, e.pnum))
-					case "newconn":
-						hist = append(hist, fmt.Sprintf("newconn server=%v %v retry=%v", e.server, e.from, e.retry))
 					}
-				}
-				m.log.mu.Unlock()
-				if len(hist) > 60 {
-					hist = hist[len(hist)-60:]
-				}
+					m.log.mu.Unlock()
+					if len(hist) > 60 {
+						hist = hist[len(hist)-60:]
+					}
 				}
 				return vs.Violf("C27", "amplification", "net:amplification", "server has sent %d bytes to the unvalidated address %v but received only %d from it (limit %d); history: %v", m.sentTo[ev.to], ev.to, m.recvFrom[ev.to], 3*m.recvFrom[ev.to], hist)
 			}
@@ -914,14 +934,15 @@ type qnDirState struct {
 }
 
 type qnRun struct {
-	p    *qnPlan
-	sim  *vs.Sim
-	net  *vs.PacketNet
-	tr   *vs.Trace
-	mu   sync.Mutex
-	viol *vs.Violation
-	mon  *qnMon
-	log  *qnLog
+	idleDeaths []string // stream operations that failed with idle timeout after the heal
+	p          *qnPlan
+	sim        *vs.Sim
+	net        *vs.PacketNet
+	tr         *vs.Trace
+	mu         sync.Mutex
+	viol       *vs.Violation
+	mon        *qnMon
+	log        *qnLog
 
 	conns    []*Conn
 	srvConns []qnSrvConn
@@ -1062,6 +1083,7 @@ func (r *qnRun) writer(tk *vs.Task, s *Stream, idx, dir int, ops []qnOp, withHea
 	fail := func(err error) {
 		r.mu.Lock()
 		d.wErr = err
+		r.noteErr(err, fmt.Sprintf("s%d/%d write", idx, dir))
 		r.mu.Unlock()
 	}
 	var off int64
@@ -1162,6 +1184,7 @@ func (r *qnRun) writer(tk *vs.Task, s *Stream, idx, dir int, ops []qnOp, withHea
 					d.closeNil = true
 				} else {
 					d.wErr = err
+					r.noteErr(err, fmt.Sprintf("s%d/%d close", idx, dir))
 				}
 				r.mu.Unlock()
 			} else {
@@ -1264,6 +1287,7 @@ func (r *qnRun) reader(tk *vs.Task, s *Stream, idx, dir int, ops []qnOp, skip in
 				}
 			} else {
 				d.rErr = err
+				r.noteErr(err, fmt.Sprintf("s%d/%d read", idx, dir))
 			}
 			return false
 		}
@@ -1280,6 +1304,11 @@ func (r *qnRun) reader(tk *vs.Task, s *Stream, idx, dir int, ops []qnOp, skip in
 			if !readN(1) {
 				return
 			}
+		case "read0":
+			vs.G.Inc("probe.zero_length_read")
+			if !readN(0) {
+				return
+			}
 		case "sleep":
 			time.Sleep(op.dur)
 		case "closeread":
@@ -1293,6 +1322,19 @@ func (r *qnRun) reader(tk *vs.Task, s *Stream, idx, dir int, ops []qnOp, skip in
 			}
 			return
 		}
+	}
+}
+
+// noteErr (r.mu held) records a stream operation that failed with the
+// connection's idle timeout although the network had been fault-free for the
+// whole idle period: both endpoints were alive and the scripts never pause that
+// long, so a connection can only go idle there if it stalled.
+func (r *qnRun) noteErr(err error, what string) {
+	if err == nil || !errors.Is(err, errIdleTimeout) || r.p.defaultTO {
+		return
+	}
+	if at := r.sim.Elapsed(); at >= r.p.faults.HealAt+2*time.Minute {
+		r.idleDeaths = append(r.idleDeaths, fmt.Sprintf("%s at %v", what, at))
 	}
 }
 
@@ -1763,6 +1805,9 @@ func (r *qnRun) final(sim *vs.Sim, harness *string) *vs.Violation {
 		vs.G.Inc("run.stuck_under_handshake_faults")
 		return nil
 	}
+	if len(r.idleDeaths) > 0 {
+		return vs.Violf("C19", "liveness", "net:idle_death_after_heal", "the connection idled out (no packet for 2m0s) entirely after the network healed at %v while stream operations were pending: %v", r.p.faults.HealAt, r.idleDeaths)
+	}
 	if sim.Stuck {
 		var pend []string
 		for i, ds := range r.dirs {
@@ -1802,13 +1847,12 @@ func (r *qnRun) final(sim *vs.Sim, harness *string) *vs.Violation {
 	return nil
 }
 
-func TestVerif_C19(t *testing.T) { vs.Check(t, func(rt *rapid.T) { qnRunOnce(t, rt, "C19") }) }
-func TestVerif_C20(t *testing.T) { vs.Check(t, func(rt *rapid.T) { qnRunOnce(t, rt, "C20") }) }
-func TestVerif_C21(t *testing.T) { vs.Check(t, func(rt *rapid.T) { qnRunOnce(t, rt, "C21") }) }
-func TestVerif_C25(t *testing.T) { vs.Check(t, func(rt *rapid.T) { qnRunOnce(t, rt, "C25") }) }
+func TestVerif_C19(t *testing.T)     { vs.Check(t, func(rt *rapid.T) { qnRunOnce(t, rt, "C19") }) }
+func TestVerif_C20(t *testing.T)     { vs.Check(t, func(rt *rapid.T) { qnRunOnce(t, rt, "C20") }) }
+func TestVerif_C21(t *testing.T)     { vs.Check(t, func(rt *rapid.T) { qnRunOnce(t, rt, "C21") }) }
+func TestVerif_C25(t *testing.T)     { vs.Check(t, func(rt *rapid.T) { qnRunOnce(t, rt, "C25") }) }
 func TestVerif_C24_net(t *testing.T) { vs.Check(t, func(rt *rapid.T) { qnRunOnce(t, rt, "C24") }) }
 func TestVerif_C26_net(t *testing.T) { vs.Check(t, func(rt *rapid.T) { qnRunOnce(t, rt, "C26") }) }
-func TestVerif_C27(t *testing.T) { vs.Check(t, func(rt *rapid.T) { qnRunOnce(t, rt, "C27") }) }
-func TestVerif_C31(t *testing.T) { vs.Check(t, func(rt *rapid.T) { qnRunOnce(t, rt, "C31") }) }
-func TestVerif_C32(t *testing.T) { vs.Check(t, func(rt *rapid.T) { qnRunOnce(t, rt, "C32") }) }
-
+func TestVerif_C27(t *testing.T)     { vs.Check(t, func(rt *rapid.T) { qnRunOnce(t, rt, "C27") }) }
+func TestVerif_C31(t *testing.T)     { vs.Check(t, func(rt *rapid.T) { qnRunOnce(t, rt, "C31") }) }
+func TestVerif_C32(t *testing.T)     { vs.Check(t, func(rt *rapid.T) { qnRunOnce(t, rt, "C32") }) }
